@@ -431,7 +431,16 @@ func NodeStartPos(node *Node) token.LnColPos {
 		return node.AttrExpr().Start
 
 	case TypeIndexExpr:
-		return node.IndexExpr().Obj.Start
+		if obj := node.IndexExpr().Obj; obj != nil {
+			return obj.Start
+		}
+		if lb := node.IndexExpr().LBracket; len(lb) > 0 {
+			return lb[0]
+		}
+		return token.InvalidLnColPos
+
+	case TypeInExpr:
+		return node.InExpr().LHS.StartPos()
 
 	case TypeUnaryExpr:
 		return node.UnaryExpr().OpPos
